@@ -24,8 +24,14 @@ def eval_program(arg) -> dict:
     twins = stream % 6 == 2
     prog, case, _rng = progrun.make_program(PROP, seed, stream, scratch, want_mc,
                                             mc_position=['first', 'middle', 'last'][(stream // 3) % 3],
-                                            mc_shape=stream // 3, twins=twins)
+                                            mc_shape=stream // 3, twins=twins,
+                                            big=stream % 12 == 11)
     out = {'violations': [], 'counts': {}}
+    if prog.enc.get('big'):
+        # ten and more ports and events, long names: everything rerouted
+        prog.enc['provides'] = {'sts': 'NONE', 'mts': 'ALL'}
+        prog.enc['requires'] = {'sts': 'NONE', 'mts': 'ALL'}
+        case['cfg'] = prog.enc
     if twins:
         prog.enc['provides'] = {'sts': 'NONE', 'mts': 'ALL'}
         prog.enc['requires'] = {'sts': 'NONE', 'mts': 'ALL'}
@@ -75,7 +81,8 @@ def main(tier: str) -> int:
     run.require('stimuli', 'arrivals', 'args_compared', 'returns_compared', 'programs', 'arrivals_at_a_handler_bound_again',
                 'programs_multiclient', 'programs_with_ports_sharing_an_interface',
                 'programs_with_same_named_externs_in_unrelated_namespaces',
-                'nested_out_events_raised', 'nested_out_events_to_the_claim_holder')
+                'nested_out_events_raised', 'nested_out_events_to_the_claim_holder',
+                'programs_of_big_size')
     scratch = run.scratch()
     progrun.drive(run, eval_program, [(run.seed, i, scratch, tier) for i in range(n)])
     return run.finish(
